@@ -174,6 +174,18 @@ pub fn run(sink: &mut Sink, prop: &str, thorough: bool, seed: u64) {
             for _ in 0..4 { let m = mutate(&d, &mut r); emit(sink, &cfg, &m, &mut r, "mlmut"); }
         }
     }
+    // the private tokens through which Number (arbitrary_precision) and RawValue (raw_value) travel inside serde's data
+    // model are ordinary JSON object keys as far as RFC 8259 is concerned: objects whose FIRST key decodes to one of them
+    if (prop == "C01" || prop == "C02") && (cfg!(feature = "ap") || cfg!(feature = "rv")) {
+        for tok in ["$serde_json::private::Number", "$serde_json::private::RawValue", "\\u0024serde_json::private::Number"] {
+            for body in ["\"1\"", "\"-0\"", "\"1e5\"", "\"abc\"", "\"\"", "\"[1, 2]\"", "\" 1\"", "1", "null", "[\"1\"]", "\"1\",\"b\":2", "\"}{\""] {
+                for doc in [format!("{{\"{}\":{}}}", tok, body), format!(" {{ \"{}\" : {} }} ", tok, body), format!("[{{\"{}\":{}}}]", tok, body),
+                            format!("{{\"a\":1,\"{}\":{}}}", tok, body), format!("{{\"k\":{{\"{}\":{}}}}}", tok, body)] {
+                    emit(sink, &cfg, doc.as_bytes(), &mut r, "private-token");
+                }
+            }
+        }
+    }
     let toks = tokens();
     let n = if thorough { 4 } else { 3 };
     emit(sink, &cfg, b"", &mut r, "exh0");
